@@ -47,6 +47,10 @@ def run(ctx):
     # the same model without mutual exclusion must exhibit the lost-update interleaving (non-vacuity of the model)
     ctx.mc('gc', 'SafePoint', 'MC_SafePoint_unlocked.cfg', timeout=300, expect_violation='StoredMonotone')
     ctx.mc('gc', 'ServiceSafePoint', 'MC_ServiceSafePoint.cfg', timeout=900, coverage=q)
+    # the locked handler without a bound on the number of calls: inductive invariant discharged symbolically
+    ctx.apalache('gc', 'SafePointInd', 'Init', 'IndInv', 0)
+    ctx.apalache('gc', 'SafePointInd', 'IndInv', 'IndInv', 1)
+    ctx.apalache('gc', 'SafePointInd', 'IndInv', 'StoredMonotoneAct', 1)
     seeds = [ctx.seed] if q else [ctx.seed + k for k in range(3)]
     for sd in seeds:
         # gate-level interleavings of concurrent updates, from the unlocked model (every order the harness can attempt)
